@@ -105,6 +105,7 @@ class Oracle:
         if op == 'create':
             if node is not None:
                 meta['exists_at'] = path
+                meta['met_at'] = path
                 if owner != sid:
                     self.count('create_met_foreign_owner')
                     meta['blocked_on'] = (path, node.czxid)
